@@ -342,11 +342,12 @@ def flow_case(c, path):
     import h5py
     import smcdrv
     viol = []
-    tag = f"flow|{c['backend']}|{'trained' if c['trained'] else 'untrained'}|{c['dtype']}|{'kwargs' if c['kwargs'] else 'defaults'}|{'transform' if c.get('transform') else 'plain'}|saves={c.get('saves', 1)}"
+    tag = f"flow|{c['backend']}|{'trained' if c['trained'] else 'untrained'}|{c['dtype']}|{'kwargs' if c['kwargs'] else 'defaults'}|{'transform' if c.get('transform') else 'plain'}|saves={c.get('saves', 1)}|dims={c.get('dims', 2)}"
     try:
-        fl = make_flow(c["backend"], c["dtype"], c["kwargs"], transform=bool(c.get("transform")))
+        dims = int(c.get("dims", 2))
+        fl = make_flow(c["backend"], c["dtype"], c["kwargs"], dims=dims, transform=bool(c.get("transform")))
         rng = np.random.default_rng(2)
-        data = rng.normal(0.4, 1.1, size=(64, 2))
+        data = rng.normal(0.4, 1.1, size=(64, dims))
         if c.get("transform") and not c["trained"]:
             fl.fit_data_transform(fl.xp.asarray(np.asarray(data, dtype=c["dtype"])) if hasattr(fl, "xp") else data)
         if c["trained"]:
@@ -446,8 +447,8 @@ def main(prop, tier, seed, replay_path=None):
             fl_seen, fl_strat = set(), []
             for i in heavy:
                 cc = cases[i]
-                if cc["kind"] == "flow" and (cc["backend"], cc["transform"], cc["saves"]) not in fl_seen:
-                    fl_seen.add((cc["backend"], cc["transform"], cc["saves"])); fl_strat.append(i)
+                if cc["kind"] == "flow" and (cc["backend"], cc["transform"], cc["saves"], cc["dims"]) not in fl_seen:
+                    fl_seen.add((cc["backend"], cc["transform"], cc["saves"], cc["dims"])); fl_strat.append(i)
             heavy_keep = fl_strat + [i for i in heavy if cases[i]["kind"] == "flow" and i not in fl_strat][:4] + \
                          [i for i in heavy if cases[i]["kind"] == "resume" and cases[i]["backend"] == "verifflow"][:24] + \
                          [i for i in heavy if cases[i]["kind"] == "resume" and cases[i]["backend"] != "verifflow"][:8]
